@@ -238,9 +238,13 @@ class Scenario:
             self.content = {i: self.pristine[i[1]] for i in self.inst}
             self.damaged, self.liars = {}, {}
             self.reset_everheld()
-            self.server_faults()
+            # (not server_faults(): it removes servers from the grid)
             self.mode = {s2: "ok" for s2 in names}
             self.late = set()
+            self.nth = {s2: 1 for s2 in names}
+            self.calls = {s2: 0 for s2 in names}
+            self.lost = []
+            self.fail_lost = True
             order = list(names)
             rng.shuffle(order)
             self.gap_server, self.gap_victim, self.gap_killed = order[0], order[1], False
